@@ -105,8 +105,10 @@ func (s *scanner) ScanToken() (Object, error) {
 			s.SkipByte()
 			return Operator(">>"), nil
 		default:
+			// s.err only matters if the input ends here; the reader may have
+			// reported its error (or EOF) together with the last data
 			err := s.err
-			if err == nil {
+			if err == nil || len(bb) == 2 {
 				err = &postScriptError{eSyntaxerror, "unexpected '>'"}
 			}
 			return nil, err
